@@ -66,6 +66,18 @@ class MatchResult:
         return f"MatchResult({self._groups!r}, index={self.index})"
 
 
+def _lower(ch: str) -> str:
+    """Lower-case mapping of one character, used only when it is one character."""
+    folded = ch.lower()
+    return folded if len(folded) == 1 else ch
+
+
+def _upper(ch: str) -> str:
+    """Upper-case mapping of one character, used only when it is one character."""
+    folded = ch.upper()
+    return folded if len(folded) == 1 else ch
+
+
 class RegexVM:
     """
     Regex bytecode virtual machine.
@@ -212,7 +224,7 @@ class RegexVM:
 
                 ch = string[sp]
                 if self.ignorecase:
-                    match = ord(ch.lower()) == char_code or ord(ch.upper()) == char_code
+                    match = ord(_lower(ch)) == char_code or ord(_upper(ch)) == char_code
                 else:
                     match = ord(ch) == char_code
 
@@ -305,7 +317,7 @@ class RegexVM:
                     continue
 
                 ch = string[sp]
-                ch_code = ord(ch.lower() if self.ignorecase else ch)
+                ch_code = ord(_lower(ch) if self.ignorecase else ch)
 
                 matched = False
                 for start, end in ranges:
@@ -314,7 +326,7 @@ class RegexVM:
                         if start <= ch_code <= end:
                             matched = True
                             break
-                        ch_upper = ord(ch.upper())
+                        ch_upper = ord(_upper(ch))
                         if start <= ch_upper <= end:
                             matched = True
                             break
@@ -340,7 +352,7 @@ class RegexVM:
                     continue
 
                 ch = string[sp]
-                ch_code = ord(ch.lower() if self.ignorecase else ch)
+                ch_code = ord(_lower(ch) if self.ignorecase else ch)
 
                 matched = False
                 for start, end in ranges:
